@@ -39,6 +39,14 @@ def _reorder(draw, spec):
         s["alts"] = [_reorder(draw, e) for e in s["alts"]]
     if "entries" in s:
         s["entries"] = [dict(e, spec=_reorder(draw, e["spec"])) for e in s["entries"]]
+        if len(s["entries"]) > 1 and draw(st.booleans()):
+            s["entries"] = list(draw(st.permutations(s["entries"])))        # (key order is not part of a dict schema)
+        if s.get("relaxed") and s["entries"]:
+            # ... nor is the place where the `...: ...` marker was written
+            where = draw(st.integers(0, len(s["entries"])))
+            s.pop("relaxed_at", None)
+            if where < len(s["entries"]):
+                s["relaxed_at"] = where
     return s
 
 
